@@ -128,10 +128,13 @@ let predict (c : string) (obs : string) : string * string * bool =
       let _inst = num () in
       let mode = next () in
       let refused = (mode = "1") in
-      let h2gun = (gun = "http2") in
+      let h2gun = (gun = "http2" || gun = "scenario2") in
+      let gun = if gun = "scenario2" then "scenario" else gun in (* the scenario gun over the http2 client *)
       let target_h2 = h2gun && mode <> "2" in
       let opts_s = next () in
       (* r<0|1> in front: the gun option `redirect` *)
+      let opts_s = (* p<0|1> in front: POST ammo with a body (the same samples are expected) *)
+        if String.length opts_s > 2 && opts_s.[0] = 'p' then String.sub opts_s 2 (String.length opts_s - 2) else opts_s in
       let (redirect, opts_s) =
         if String.length opts_s > 2 && opts_s.[0] = 'r' then (opts_s.[1] = '1', String.sub opts_s 2 (String.length opts_s - 2)) else (false, opts_s) in
       let opts = { go_dump = (opts_s.[1] = '1'); go_trace = (opts_s.[3] = '1'); go_debug = (opts_s.[5] = '1');
@@ -226,7 +229,7 @@ let predict (c : string) (obs : string) : string * string * bool =
         else base_shoot_do base_c false d <> base_shoot base_c false s.si_resp) steps !dos in
       let shots =
         if wire_bad || do_bad then [ShotPanic []] else
-        if gun = "http" || gun = "connect" || h2gun then
+        if gun = "http" || gun = "connect" || gun = "http2" then
           List.map (fun s -> base_shoot { bc_bound = true; bc_connect = None; bc_http2 = h2gun; bc_opts = opts } false s.si_resp) steps
         else List.init iters (fun _ -> scenario_shoot true steps) in
       let (samples, failed) = instance_run shots in
@@ -288,6 +291,48 @@ let predict (c : string) (obs : string) : string * string * bool =
             else "ok"
         | _ -> "BAD:unparsable-observation") in
       (p, v, true)
+  | "gscn" ->
+      let iters = num () in
+      let _answ = next () in
+      let n = num () in
+      let raw = Array.of_list (List.init n (fun _ -> let call = next () in let payload = next () in let srv = next () in let pp = next () in (call, payload, srv, pp))) in
+      (* the target goes away for good when a `down` call reaches it; calls that never leave the gun do not reach it *)
+      let down = ref false in
+      let shots = ref [] in
+      let any_pp = ref false in
+      for _ = 1 to iters do
+        let steps = ref [] in
+        let going = ref true in
+        for i = 0 to n - 1 do
+          let (call, payload, srv, pp) = raw.(i) in
+          let reaches = !going && call = "h" && payload = "ok" in
+          if reaches && srv = "down" then down := true;
+          let code = if !down then z_of_int 503 else
+            (match int_of_string_opt srv with Some c -> z_of_zt (zt_of_n (grpc_code (n_of_int c))) | None -> z_of_int 503) in
+          let out = if code = z_of_int 200 then Some (bytes_of_string (Printf.sprintf "hello:\"Hello s%d!\"" i)) else None in
+          let asserts = (match String.split_on_char ':' pp with
+            | ["a"; st; pat] -> any_pp := true; [ (z_of_int (int_of_string st), [bytes_of_hex pat]) ]
+            | _ -> []) in
+          let st = mk_gstep (payload <> "tmpl") (call = "h") (payload <> "bad") code out asserts in
+          (match grpc_scn_step st with GStepOk _ -> () | _ -> going := false);
+          steps := !steps @ [st]
+        done;
+        shots := !shots @ [grpc_scn_shoot !steps]
+      done;
+      let (samples, failed) = instance_run !shots in
+      let show_s (s : sample) = Printf.sprintf "%d:%s" (int_of_z s.sm_code) (field_of_bool s.sm_err) in
+      let ss = List.sort compare (List.map show_s samples) in
+      let p = Printf.sprintf "run=%s n=%d%s" (if failed then "panic" else "ok") (List.length ss) (String.concat "" (List.map (fun x -> " " ^ x) ss)) in
+      (* specification: run ok; one sample per executed call carrying the mapped status *)
+      let v = (match split_blank obs with
+        | run :: cnt :: rest ->
+            if run = "run=panic" then "BAD:run-aborted-by-panic"
+            else if run <> "run=ok" then "BAD:run-" ^ (String.sub run 4 (String.length run - 4))
+            else if cnt <> Printf.sprintf "n=%d" (List.length ss) then "BAD:sample-count"
+            else if rest <> ss then "BAD:sample-content"
+            else "ok"
+        | _ -> "BAD:unparsable-observation") in
+      (p, v, n > 1 || !any_pp)
   | _ -> ("unknown-case", "BAD:unknown-case", false)
 
 let () = run_cases predict
